@@ -9,18 +9,18 @@ PROOF_NOTE = ("Trusted: Lean 4.33 kernel with axioms propext/Classical.choice/Qu
 CLAIMED = {
     "C01": dict(
         text="Lean 4 model of the whole ScopeVisitor (scope stack, two-phase reads with captured-reference de-duplication, reference merging, hoisting, if/elseif/else scope juggling, loops, methods, varargs) and of undefined_variable, plus an independent environment-passing Lua 5.1 resolver as specification. Proved for all scope tables: every diagnostic sits on a recorded unresolved read of a non-library name (C01_lint_sound) and no identifier is reported twice (C01_once). The resolution equivalence `scope-stack model = Lua resolver for every chunk` is NOT yet a Lean theorem; it is checked three-way (implementation tables / model / resolver) on every fixture, corpus and generated program - this found the scoping defects now fixed in /repo.",
-        note=PROOF_NOTE + "PARTIAL: resolution-equivalence theorem pending; full_moon parser and visitor order assumed (reproduced hook by hook, divergence = table mismatch); std enters through an oracle computed by the real code.",
-        technique="Lean 4 theorems over the lint given the scope tables (partial) + three-way correspondence: real ScopeManager tables / Lean ScopeVisitor model / environment-passing Lua resolver",
+        note=PROOF_NOTE + "Resolution equivalence is a Lean theorem for every chunk (C01_resolution: the scope-stack machine of Scope/Core.lean = the Lua 5.1 resolver of Scope/Spec.lean, as multisets of (read token, declaration)); the machine is compared with the real ScopeManager on every program (every recorded read with its binding). PARTIAL: the lint-level theorems are over the full ScopeVisitor model (Scope/Model.lean), which is tied to the implementation table-by-table by the run but not to Core by proof; full_moon parser and visitor order assumed (reproduced hook by hook, divergence = table mismatch); std enters through an oracle computed by the real code.",
+        technique="Lean 4 proof that the scope-stack resolution machine equals the environment-passing Lua resolver for all chunks (mutual structural induction, Rel/Pure/Grow invariants; permutation via List.count) + lint theorems over the scope tables + three-way correspondence: real ScopeManager tables / Lean ScopeVisitor model and resolution core / Lua resolver",
         design="§4 C01"),
     "C02": dict(
         text="Lean 4 model of the whole ScopeVisitor (scope stack, two-phase reads with captured-reference de-duplication, reference merging, hoisting, if/elseif/else scope juggling, loops, methods, varargs) and of unused_variable (incl. the static-table / observes analysis), plus an independent environment-passing Lua 5.1 resolver as specification. Proved for all scope tables: a reported variable has no reference analysed as a read and is not ignored (C02_lint_sound, C02_read_protects, C02_plain_read). The resolution equivalence `scope-stack model = Lua resolver for every chunk` is NOT yet a Lean theorem; it is checked three-way (implementation tables / model / resolver) on every fixture, corpus and generated program - this found the scoping defects now fixed in /repo.",
-        note=PROOF_NOTE + "PARTIAL: resolution-equivalence theorem pending; full_moon parser and visitor order assumed (reproduced hook by hook, divergence = table mismatch); std enters through an oracle computed by the real code.",
-        technique="Lean 4 theorems over the lint given the scope tables (partial) + three-way correspondence: real ScopeManager tables / Lean ScopeVisitor model / environment-passing Lua resolver",
+        note=PROOF_NOTE + "Resolution equivalence is a Lean theorem for every chunk (C01_resolution: the scope-stack machine of Scope/Core.lean = the Lua 5.1 resolver of Scope/Spec.lean, as multisets of (read token, declaration)); the machine is compared with the real ScopeManager on every program (every recorded read with its binding). PARTIAL: the lint-level theorems are over the full ScopeVisitor model (Scope/Model.lean), which is tied to the implementation table-by-table by the run but not to Core by proof; full_moon parser and visitor order assumed (reproduced hook by hook, divergence = table mismatch); std enters through an oracle computed by the real code.",
+        technique="Lean 4 proof that the scope-stack resolution machine equals the environment-passing Lua resolver for all chunks (mutual structural induction, Rel/Pure/Grow invariants; permutation via List.count) + lint theorems over the scope tables + three-way correspondence: real ScopeManager tables / Lean ScopeVisitor model and resolution core / Lua resolver",
         design="§4 C02"),
     "C03": dict(
         text="Lean 4 model of the whole ScopeVisitor (scope stack, two-phase reads with captured-reference de-duplication, reference merging, hoisting, if/elseif/else scope juggling, loops, methods, varargs) and of shadowing, plus an independent environment-passing Lua 5.1 resolver as specification. Proved for all scope tables: a diagnostic names a variable whose shadowed entry is a declared (non-hoisted) variable and points at it, and every such variable is reported unless ignored (C03_lint_sound, C03_lint_complete). The resolution equivalence `scope-stack model = Lua resolver for every chunk` is NOT yet a Lean theorem; it is checked three-way (implementation tables / model / resolver) on every fixture, corpus and generated program - this found the scoping defects now fixed in /repo.",
-        note=PROOF_NOTE + "PARTIAL: resolution-equivalence theorem pending; full_moon parser and visitor order assumed (reproduced hook by hook, divergence = table mismatch); std enters through an oracle computed by the real code.",
-        technique="Lean 4 theorems over the lint given the scope tables (partial) + three-way correspondence: real ScopeManager tables / Lean ScopeVisitor model / environment-passing Lua resolver",
+        note=PROOF_NOTE + "Resolution equivalence is a Lean theorem for every chunk (C01_resolution: the scope-stack machine of Scope/Core.lean = the Lua 5.1 resolver of Scope/Spec.lean, as multisets of (read token, declaration)); the machine is compared with the real ScopeManager on every program (every recorded read with its binding). PARTIAL: the lint-level theorems are over the full ScopeVisitor model (Scope/Model.lean), which is tied to the implementation table-by-table by the run but not to Core by proof; full_moon parser and visitor order assumed (reproduced hook by hook, divergence = table mismatch); std enters through an oracle computed by the real code.",
+        technique="Lean 4 proof that the scope-stack resolution machine equals the environment-passing Lua resolver for all chunks (mutual structural induction, Rel/Pure/Grow invariants; permutation via List.count) + lint theorems over the scope tables + three-way correspondence: real ScopeManager tables / Lean ScopeVisitor model and resolution core / Lua resolver",
         design="§4 C03"),
     "C04": dict(
         text="Lean 4 models of the seventeen closed-form lints (every Visitor hook they implement, their numeral / escape / side-effect / parameter-count helpers) over the full Lua 5.1 syntax tree, and by-value specifications written from docs/src/lints (Doc.*), canonical-pattern specifications (Canon.*) and numeral semantics (exact rational thresholds for `denotes zero` / `<= 1`, escape decoding). Proved for all programs (no bound on size, nesting or context): per-lint soundness (a model diagnostic implies the documented condition, e.g. divide_by_zero_sound, suspicious_reverse_loop_sound, ifs_same_cond_sound, almost_swapped_sound, unbalanced lintAssignment_iff), canonical-pattern completeness under arbitrary enclosing contexts via traversal lemmas (every statement / expression of the tree is visited: *_canon theorems), by-value theorems for numerals (number_is_zero_by_value, *_by_value) and the fixed-defect witnesses; remaining partial statements (bad_string_escape general soundness, duplicate_keys under plainKeys, mismatched_arg_count lattice) are named in the property files.",
@@ -39,7 +39,7 @@ CLAIMED = {
         design="§4 C06"),
     "C07": dict(
         text="Lean 4: every modelled library lint reaches the library only through the `resolved` flag of the use's first identifier: a call statement whose name is script-bound yields no must_use diagnostic and the diagnostics depend on the program only through the call statements and those flags (C07_must_use_inside, C07_must_use_outside); a locally bound root silences field access / assignment checks for every library and path (C07_access_inside). That `resolved` agrees with Lua's scoping is C01's pending resolution statement. Checked on the real code by 26 use snippets x 13 re-binding constructs placed inside, after, before and beside the binding's scope, each compared with a fresh-name twin.",
-        note=PROOF_NOTE + "PARTIAL: the deprecated and call-check lints are modelled up to their gate only; resolution equivalence pending (C01).",
+        note=PROOF_NOTE + "PARTIAL: the deprecated and call-check lints are modelled up to their gate only; the gate itself (`resolved`) is what C01_resolution characterises for every chunk.",
         technique="Lean 4 gate theorems over the scope/must_use/access models + binding-vs-fresh-name twin runs of the real Checker",
         design="§4 C07"),
     "C08": dict(
